@@ -13,10 +13,6 @@ use std::sync::{
 use crate::verif_sync::{AtomicU64 as StdAtomicU64, Mutex};
 #[cfg(prometheus_verif)]
 use std::sync::{atomic::Ordering, Arc};
-// Whatever else this file may come to use from std::sync::atomic resolves under the verification cfg too.
-#[cfg(prometheus_verif)]
-#[allow(unused_imports)]
-use std::sync::atomic::*;
 use std::time::{Duration, Instant as StdInstant};
 
 use crate::atomic64::{Atomic, AtomicF64, AtomicU64};
@@ -1602,3 +1598,9 @@ mod tests {
         }
     }
 }
+
+// Under the verification cfg, whatever else this file may come to use from std::sync::atomic resolves too
+// (kept at the end of the file, away from the ordinary imports).
+#[cfg(prometheus_verif)]
+#[allow(unused_imports)]
+use std::sync::atomic::*;
